@@ -211,7 +211,7 @@ func run(c *Ctx) {
 	// every child is a process of its own (own goroutine profile); they run side by side
 	var mu sync.Mutex
 	var wg sync.WaitGroup
-	sem := make(chan struct{}, 6)
+	sem := make(chan struct{}, 7)
 	results := map[string]*childResult{}
 	var order []string
 	spawn := func(name string, limit time.Duration, args ...string) {
@@ -238,7 +238,7 @@ func run(c *Ctx) {
 	batches, per := 4, 5
 	limit := 150 * time.Second
 	if c.Thorough() {
-		batches, per, limit = 10, 30, 18*time.Minute
+		batches, per, limit = 12, 20, 20*time.Minute
 	}
 	for k := 0; k < batches; k++ {
 		spawn(fmt.Sprintf("histories-batch%d", k), limit, "histories", fmt.Sprint(c.Seed*1000+uint64(k)), c.Tier, fmt.Sprint(per))
